@@ -2339,7 +2339,15 @@ where
                         .take(samples_all)
                         .collect()
                 } else {
-                    data.to_vec()
+                    // the value may be longer than the image
+                    // (values are padded to an even length):
+                    // leave out anything beyond the last frame
+                    let frame_size = (rows as usize)
+                        * (cols as usize)
+                        * (samples_per_pixel as usize)
+                        * (bits_allocated.div_ceil(8) as usize);
+                    let size_all = frame_size * (number_of_frames as usize);
+                    data.get(0..size_all).unwrap_or(&data).to_vec()
                 }
             }
             DicomValue::Sequence(..) => InvalidPixelDataSnafu.fail()?,
